@@ -1189,7 +1189,9 @@ def check_call(
     # Also make sure we found an instantiation for all free vars in the type we're
     # checking against
     if not set.issubset(ty.unsolved_vars, subst.keys()):
-        unsolved = (subst.keys() - ty.unsolved_vars).pop()
+        # Report a variable of `ty` that is still unsolved. Pick the one with the smallest
+        # id so that the message doesn't depend on the iteration order of the set
+        unsolved = min(ty.unsolved_vars - subst.keys(), key=lambda v: v.id)
         err = TypeMismatchError(node, ty, func_ty.output.substitute(subst))
         err.add_sub_diagnostic(
             TypeMismatchError.CantInferParam(None, unsolved.display_name)
